@@ -1,7 +1,7 @@
 (* C20/Property.v — property C20 (link URIs select the right driver and parse to the right radio settings).
    Theorems only; each is closed by `exact <lemma of Proofs_*.v>` and followed by Print Assumptions.
    The model (C20/Model.v) describes the code with fixes/F20.patch, F20b.patch and F20c.patch applied. *)
-From CF Require Import Common.Bytes C20.Model C20.Proofs_a C20.Proofs_b C20.Proofs_c C20.Proofs_d C20.Proofs_e C20.Proofs_f C20.Proofs_g C20.Proofs_h.
+From CF Require Import Common.Bytes C20.Model C20.Proofs_a C20.Proofs_b C20.Proofs_c C20.Proofs_d C20.Proofs_e C20.Proofs_f C20.Proofs_g C20.Proofs_h C20.Proofs_i.
 Open Scope Z_scope.
 
 (* Every well-formed radio URI parses to exactly what it names.  Dongle: a number below 10^9 or a serial
@@ -238,3 +238,23 @@ Theorem C20_guarded_init_refuted :
     claimants (init_history [false]) uri = [].
 Proof. exact guarded_init_refuted. Qed.
 Print Assumptions C20_guarded_init_refuted.
+
+(* ---- Wave 16: histories of open_link calls on ONE Crazyflie object (open_link has no state guard). *)
+Theorem C20_open_history_every_call_notifies : forall h s,
+  open_history open_step s h = map (fun kc => open_cbs (fst kc)) h.
+Proof. exact open_history_every_call_notifies. Qed.
+Print Assumptions C20_open_history_every_call_notifies.
+
+(* every call with an unclaimed or unparsable URI yields exactly connection_requested + connection_failed, whatever
+   came before *)
+Theorem C20_bad_uri_always_notified : forall h s i k cl, nth_error h i = Some (k, cl) -> k <> KGood ->
+  nth_error (open_history open_step s h) i = Some [CbRequested; CbFailed].
+Proof. exact bad_uri_always_notified. Qed.
+Print Assumptions C20_bad_uri_always_notified.
+
+Theorem C20_state_guard_refuted :
+  exists h i, nth_error h i = Some (KUnclaimed, false) /\
+    nth_error (open_history open_step_guarded CDisconnected h) i = Some [] /\
+    nth_error (open_history open_step CDisconnected h) i = Some [CbRequested; CbFailed].
+Proof. exact state_guard_refuted. Qed.
+Print Assumptions C20_state_guard_refuted.
